@@ -584,3 +584,183 @@ pub fn repo_programs() -> Vec<(String, T)> {
     }
     out
 }
+
+// ---------------------------------------------------------------------
+// P5: softfork guards (full operator set)
+
+/// a valid argument list taken from the repository's vectors (first succeeding line of `file`)
+pub fn vector_args(file: &str, opname: &str, want_ok: bool) -> Option<T> {
+    crate::vectors::load(file).into_iter().find(|v| v.opname == opname && v.expect.is_some() == want_ok).map(|v| v.args)
+}
+fn quoted_call(op: &[u8], args: &T) -> T {
+    let mut items = vec![];
+    let mut cur = args.clone();
+    while let T::P(a, b) = &cur {
+        items.push(quote((**a).clone()));
+        let n = (**b).clone();
+        cur = n;
+    }
+    cons(atom(op), list(&items))
+}
+
+pub fn guard_inner_programs() -> Vec<(String, T)> {
+    let g1 = hx(&g1_gen());
+    let g2 = hx(&g2_gen());
+    let mut v: Vec<(String, T)> = vec![];
+    let mut add = |name: &str, t: T| v.push((name.to_string(), t));
+    for (n, s) in [
+        ("quote", "(q . 1)".to_string()),
+        ("add", "(+ (q . 1) (q . 2))".to_string()),
+        ("raise", "(x)".to_string()),
+        ("cons", "(c (q . 1) (q . 2))".to_string()),
+        ("path", "2".to_string()),
+        ("path-into-atom", "7".to_string()),
+        ("sha256", "(sha256 (q . 1) (q . 2))".to_string()),
+        ("keccak", "(keccak256 (q . \"abc\"))".to_string()),
+        ("keccak-bad", "(keccak256 (q 1 2))".to_string()),
+        ("sha256tree", "(sha256tree (q 1 2 3))".to_string()),
+        ("coinid", "(coinid (sha256 (q . 1)) (sha256 (q . 2)) (q . 100))".to_string()),
+        ("alloc-heavy", "(strlen (concat (q . \"0123456789abcdef0123456789abcdef0123456789abcdef0123456789abcdef\") (q . \"0123456789abcdef\")))".to_string()),
+        ("conses", "(c (c (q . 1) (q . 2)) (c (q . 3) (c (q . 4) (q . 5))))".to_string()),
+        ("g1-negate", format!("(g1_negate (q . 0x{g1}))")),
+        ("g1-negate-bad", "(g1_negate (q . 0x010203))".to_string()),
+        ("g1-subtract", format!("(g1_subtract (q . 0x{g1}) (q . 0x{g1}))")),
+        ("point-add", format!("(point_add (q . 0x{g1}) (q . 0x{g1}))")),
+        ("pubkey", "(pubkey_for_exp (q . 5))".to_string()),
+        ("g1-multiply", format!("(g1_multiply (q . 0x{g1}) (q . 3))")),
+        ("g2-add", format!("(g2_add (q . 0x{g2}) (q . 0x{g2}))")),
+        ("g2-negate", format!("(g2_negate (q . 0x{g2}))")),
+        ("g1-map", "(g1_map (q . \"msg\"))".to_string()),
+        ("unknown-op", "(0x3c3f (q . 1))".to_string()),
+        ("unknown-op-62-args", "(keccak256)".to_string()),
+        ("modpow", "(modpow (q . 3) (q . 5) (q . 7))".to_string()),
+        ("nested-guard-bad-cost", "(softfork (q . 10) (q . 0) (q . (q . 1)) (q . ()))".to_string()),
+        ("nested-guard-ok", "(softfork (q . 160) (q . 0) (q . (q . 1)) (q . ()))".to_string()),
+        ("nested-guard-ok-new", "(softfork (q . 520) (q . 0) (q . (q . 1)) (q . ()))".to_string()),
+    ] {
+        add(n, parse_prog(&s));
+    }
+    if let Some(a) = vector_args("test-secp-verify.txt", "secp256k1_verify", true) {
+        add("secp256k1-4byte-ok", quoted_call(&[0x13, 0xd6, 0x1f, 0x00], &a));
+        // corrupt the message
+        if let T::P(pk, rest) = &a {
+            if let T::P(_m, rest2) = &**rest {
+                let bad = cons((**pk).clone(), cons(atom(&[0x11; 32]), (**rest2).clone()));
+                add("secp256k1-4byte-bad", quoted_call(&[0x13, 0xd6, 0x1f, 0x00], &bad));
+            }
+        }
+    }
+    if let Some(a) = vector_args("test-secp-verify.txt", "secp256r1_verify", true) {
+        add("secp256r1-4byte-ok", quoted_call(&[0x1c, 0x3a, 0x8f, 0x00], &a));
+    }
+    if let Some(a) = vector_args("test-blspy-verify.txt", "bls_verify", true) {
+        add("bls-verify-ok", quoted_call(&[59], &a));
+    }
+    if let Some(a) = vector_args("test-blspy-pairing.txt", "bls_pairing_identity", true) {
+        add("bls-pairing-ok", quoted_call(&[58], &a));
+    }
+    v
+}
+
+/// cost of evaluating `ip` in `env` under `flags` (with every post-fork operator enabled, as inside a guard)
+pub fn standalone_cost(ip: &T, env: &T, flags: ClvmFlags) -> Option<u64> {
+    with_loaded(ip, env, Enc::Inline, |l| {
+        let o = l.run_flags(flags | ClvmFlags::ENABLE_KECCAK_OPS_OUTSIDE_GUARD, 0);
+        if o.ok { Some(o.cost) } else { None }
+    })
+}
+
+pub struct GuardSpec {
+    pub inner: usize,
+    pub ext: usize,
+    pub cost: usize,
+    pub ctx: usize,
+}
+pub const GUARD_EXTS: usize = 7;
+pub const GUARD_COSTS: usize = 16;
+pub const GUARD_CTXS: usize = 6;
+
+pub fn guard_ext(i: usize) -> T {
+    match i {
+        0 => quote(nil()),
+        1 => quote(atom(&[1])),
+        2 => quote(atom(&[2])),
+        3 => quote(atom(&[0x00, 0xff, 0xff, 0xff, 0xff])),
+        4 => quote(atom(&[0x01, 0, 0, 0, 0])),
+        5 => quote(atom(&[0x00])),
+        _ => quote(cons(atom(&[1]), nil())),
+    }
+}
+
+/// declared-cost argument #i given the exact costs under both models
+pub fn guard_cost(i: usize, exact_old: Option<u64>, exact_new: Option<u64>) -> T {
+    let eo = exact_old.map(|c| c + 140).unwrap_or(1000) as i128;
+    let en = exact_new.map(|c| c + 500).unwrap_or(2000) as i128;
+    let v = match i {
+        0 => int_atom(eo),
+        1 => int_atom(en),
+        2 => int_atom(eo + 1),
+        3 => int_atom(eo - 1),
+        4 => int_atom(en + 1),
+        5 => int_atom(en - 1),
+        6 => nil(),
+        7 => int_atom(1),
+        8 => int_atom(1 << 32),
+        9 => int_atom(1 << 63),
+        10 => atom(&[0x00, 0xff, 0xff, 0xff, 0xff, 0xff, 0xff, 0xff, 0xff]), // u64::MAX
+        11 => int_atom((u64::MAX - 151) as i128),
+        12 => int_atom(-1),
+        13 => {
+            let mut b = vec![0u8, 0u8];
+            b.extend(crate::tree::int_bytes(eo));
+            atom(&b)
+        } // non-canonical exact
+        14 => atom(&[0x01, 0, 0, 0, 0, 0, 0, 0, 0]), // 2^64
+        _ => cons(atom(&[1]), nil()),
+    };
+    quote(v)
+}
+
+pub fn guard_ctx(i: usize, guard: T) -> T {
+    match i {
+        0 => guard,
+        1 => list(&[atom(&[4]), guard, quote(atom(&[7]))]),                                                   // (c G 7)
+        2 => list(&[atom(&[4]), list(&[atom(&[14]), quote(atom(b"xy")), quote(atom(b"z"))]), guard]),       // (c (concat..) G)
+        3 => list(&[atom(&[9]), guard, quote(nil())]),                                                        // (= G ()) : G inside a GC candidate
+        4 => list(&[atom(&[11]), guard, list(&[atom(&[14]), quote(atom(&big_atom(600))), quote(atom(&big_atom(600)))])]), // (sha256 G (concat big big))
+        _ => list(&[atom(&[4]), guard.clone(), guard]),                                                       // two guards in sequence
+    }
+}
+
+/// P5 full: (softfork COST EXT (q . PROG) 1) in several contexts
+pub fn p5_full() -> ProgSpace {
+    let inner: Vec<(String, Vec<u8>)> = guard_inner_programs().into_iter().map(|(n, t)| (n, t.ser())).collect();
+    let ni = inner.len() as u64;
+    let total = ni * (GUARD_EXTS * GUARD_COSTS * GUARD_CTXS) as u64;
+    // exact costs per inner program (computed once)
+    let env = std_env();
+    let exact: Vec<(Option<u64>, Option<u64>)> = inner
+        .iter()
+        .map(|(_, p)| {
+            let t = tree::deser(p).unwrap().0;
+            (standalone_cost(&t, &env, ClvmFlags::empty()), standalone_cost(&t, &env, ClvmFlags::NEW_COST_MODEL))
+        })
+        .collect();
+    ProgSpace {
+        name: format!("P5({} inner programs x {GUARD_EXTS} extensions x {GUARD_COSTS} declared costs x {GUARD_CTXS} contexts)", inner.len()),
+        total,
+        get: Box::new(move |i| {
+            let mut r = i;
+            let ctx = (r % GUARD_CTXS as u64) as usize;
+            r /= GUARD_CTXS as u64;
+            let ci = (r % GUARD_COSTS as u64) as usize;
+            r /= GUARD_COSTS as u64;
+            let ei = (r % GUARD_EXTS as u64) as usize;
+            r /= GUARD_EXTS as u64;
+            let ip = tree::deser(&inner[r as usize].1).unwrap().0;
+            let (eo, en) = exact[r as usize];
+            let guard = list(&[atom(&[36]), guard_cost(ci, eo, en), guard_ext(ei), quote(ip), atom(&[1])]);
+            (guard_ctx(ctx, guard), std_env())
+        }),
+    }
+}
